@@ -57,7 +57,7 @@ func (inf IndexFlat) InsertUpdateDelete(ctx context.Context, points <-chan vaman
 	errC := make(chan error, 1)
 	// We use this go routine to flush the vector store after all points have
 	// been processed
-	go func() {
+	utils.Go(ctx, func() {
 		defer close(errC)
 		if err := <-sinkErrC; err != nil {
 			errC <- fmt.Errorf("failed to insert/update/delete: %w", err)
@@ -69,7 +69,7 @@ func (inf IndexFlat) InsertUpdateDelete(ctx context.Context, points <-chan vaman
 			return
 		}
 		errC <- inf.vecStore.Flush()
-	}()
+	})
 	return errC
 }
 
